@@ -87,7 +87,7 @@ def cases(ctx):
         yield {"kind": "twin", "cls": rng.choice(["numeric", "hex"]), "clear_first": rng.random() < 0.5,
                "rseed": rng.getrandbits(32), "salt": rng.choice(["saltForTest", "Q", "n1"])}
     combos = [(f["id"], c) for f in REPLACE_FORMS for c in f["classes"]]
-    reps = ctx.pick(30, 400)
+    reps = ctx.pick(30, 2400)
     i = 0
     for rep in range(reps):
         for fid, cls in combos:
